@@ -348,7 +348,7 @@ class BlockProcessor:
             logger.info('chain reorg detected')
         else:
             logger.info(f'faking a reorg of {count:,d} blocks')
-        await self.flush(True)
+        await self.run_with_lock(self.flush(True))
 
         start, hex_hashes = await self._reorg_hashes(count)
         pairs = reversed(list(enumerate(hex_hashes, start=start)))
@@ -721,7 +721,9 @@ class BlockProcessor:
     async def on_caught_up(self):
         was_first_sync = self.state.first_sync
         self.state.first_sync = False
-        await self.flush(True)
+        # Under the lock and shielded like every other flush: if we are cancelled whilst the
+        # flush is in a worker thread, the shutdown flush must wait for it, not run alongside it
+        await self.run_with_lock(self.flush(True))
         if self.caught_up:
             # Flush everything before notifying as client queries are performed on the DB
             await self.notifications.on_block(self.touched, self.state.height)
